@@ -335,11 +335,11 @@ func ruleCodec(c *Ctx) {
 	}
 	// decoders call the readers
 	decs := []struct{ pkg, fn, callee string }{
-		{"note", "(*Degree).UnmarshalYAML", "note.ParseDegree"},
-		{"op", "(*Key).UnmarshalYAML", "op.ParseKey"},
-		{"op", "(*DynamicSign).UnmarshalYAML", "op.NewDynamicSign"},
-		{"util", "(*Rat).UnmarshalYAML", "util.ParseRat"},
-		{"op", "(*BPM).UnmarshalYAML", "util.ParseUint"},
+		{"note", "Degree.UnmarshalYAML", "note.ParseDegree"},
+		{"op", "Key.UnmarshalYAML", "op.ParseKey"},
+		{"op", "DynamicSign.UnmarshalYAML", "op.NewDynamicSign"},
+		{"util", "Rat.UnmarshalYAML", "util.ParseRat"},
+		{"op", "BPM.UnmarshalYAML", "util.ParseUint"},
 	}
 	for _, d := range decs {
 		fn := c.fn(d.pkg, d.fn)
